@@ -31,7 +31,7 @@ IMPORTS = {
         ("C10", ["C10.D5"], "a numeric default outside the admitted range is reported when the schema is added"),
     ],
     "C10": [
-        ("C06", ["C06.W3"], "the numeric default that is range-checked is the one the schema states (annotations are not rewritten before conversion)"),
+        ("C06", ["C06.W3", "C06.D8"], "the numeric default that is range-checked is the one the schema states (annotations are not rewritten before conversion)"),
     ],
     "C14": [
         ("C16", ["C16.W2"], "replacement and merging read the definitions index: it is only ever added to (a replaced definition's schema must stay available for structural merging)"),
